@@ -69,7 +69,8 @@ Proof.
   rewrite do_loop_step. cbv zeta.
   destruct (first_some (a_after a)); [reflexivity|].
   destruct (hard_stop o _ a); [reflexivity|].
-  destruct (fst (need_retry (ro_conds o) (view_of (a_out a)))); reflexivity.
+  destruct (fst (need_retry (ro_conds o) (view_of (a_out a)))); [|reflexivity].
+  destruct (a_wait_cancel a); reflexivity.
 Qed.
 
 (* every attempt puts the request on the wire that the first pass of the middlewares built *)
@@ -258,6 +259,7 @@ Qed.
 
 Theorem reexecution_hooks_from_one o s ins :
   hooks_keep_attempt (ro_hooks o) -> refused (Some o) (set_attempt s 0) = false ->
+  Forall (fun a => a_wait_cancel a = false) ins ->
   let r := run_exec detect c true (Some o) s ins in
   res_end r = EndNormal ->
   res_hooks r =
@@ -265,8 +267,8 @@ Theorem reexecution_hooks_from_one o s ins :
                            (rev (ro_hooks o)))
              (seq 0 (pred (length (res_wires r)))).
 Proof.
-  intros Hh E. unfold run_exec, exec_start. rewrite run_not_refused by exact E.
-  apply hooks_once_per_retry; [exact Hh|reflexivity].
+  intros Hh E Hnw. unfold run_exec, exec_start. rewrite run_not_refused by exact E.
+  apply hooks_once_per_retry; [exact Hh|reflexivity|exact Hnw].
 Qed.
 
 End RunProofs.
@@ -276,7 +278,7 @@ End RunProofs.
 Definition ex_client : client := mkClient [] [(bs "a", bs "1")] [] [] true [].
 Definition ex_state : rstate := mkR (bs "POST") [] [] [] [] [] None GBNil [] false 0 [] [] [] None.
 Definition ex_ropt : ropt := mkRopt 1 0 [] [].
-Definition ex_script : list ain := [mkAin (OErr 1 false) []; mkAin (OStatus 200) []].
+Definition ex_script : list ain := [mkAin (OErr 1 false) [] false; mkAin (OStatus 200) [] false].
 
 (* client cookies: the second attempt of the pinned code carries the cookie twice *)
 Theorem attempts_identical_pinned_refuted :
@@ -294,7 +296,7 @@ Proof. eexists. vm_compute. repeat split. Qed.
 
 (* default rule with a request-level after-response middleware that returns nil: the pinned
    code stops after the failed first attempt, the repaired code retries *)
-Definition ex_script_after : list ain := [mkAin (OErr 1 false) [None]; mkAin (OStatus 200) [None]].
+Definition ex_script_after : list ain := [mkAin (OErr 1 false) [None] false; mkAin (OStatus 200) [None] false].
 
 Theorem default_rule_pinned_refuted :
   length (res_wires (run_gen (fun _ => []) ex_client true (Some ex_ropt) ex_state ex_script_after)) = 1%nat /\
@@ -305,7 +307,7 @@ Proof. vm_compute. split; reflexivity. Qed.
    used up its two retries gets none in the next one *)
 Definition ex_ropt2 : ropt := mkRopt 2 0 [] [].
 Definition ex_stale : rstate := mkR (bs "POST") [] [] [] [] [] None GBNil [] false 2 [] [] [] None.
-Definition ex_script3 : list ain := [mkAin (OErr 1 false) []; mkAin (OErr 1 false) []; mkAin (OStatus 200) []].
+Definition ex_script3 : list ain := [mkAin (OErr 1 false) [] false; mkAin (OErr 1 false) [] false; mkAin (OStatus 200) [] false].
 
 Theorem stale_counter_refuted :
   length (res_wires (run_exec (fun _ => []) ex_client false (Some ex_ropt2) ex_stale ex_script3)) = 1%nat /\
@@ -316,5 +318,5 @@ Proof. vm_compute. split; reflexivity. Qed.
    retries it, and it is what Do returns when that attempt is the last *)
 Theorem wrapper_error_is_the_attempts_error s e :
   fst (need_retry [] (view_of (OStatusErr s e))) = true /\
-  final_view (mkAin (OStatusErr s e) []) = mkView (Some s) (Some e).
+  final_view (mkAin (OStatusErr s e) [] false) = mkView (Some s) (Some e).
 Proof. split; reflexivity. Qed.
